@@ -102,6 +102,12 @@ def gen_function(name, nargs, nvars, nbody, shape=0):
             stmts += ["\twhile (g_x)", "\t{", f"\t\tft_f({k});", "\t}"]
         elif shape == 3 and rem >= 6:
             stmts += ["\tif (g_x)", "\t{", "\t\tif (g_y)", f"\t\t\tft_f({k});", "\t}", f"\tft_g({k});"]
+        elif shape == 4 and rem >= 3:
+            stmts += ["\tif (g_x)", "\t\twhile (g_y)", f"\t\t\tft_f({k});"]
+        elif shape == 5 and rem >= 4:
+            stmts += ["\twhile (g_x)", "\t\tif (g_y)", "\t\t\twhile (g_z)", f"\t\t\t\tft_f({k});"]
+        elif shape == 6 and rem >= 5:
+            stmts += ["\tif (g_x)", "\t\twhile (g_y)", "\t\t{", f"\t\t\tft_f({k});", "\t\t}"]
         else:
             stmts.append(f"\tft_f({k});")
         k += 1
@@ -114,7 +120,7 @@ def gen_function(name, nargs, nvars, nbody, shape=0):
 
 def counter_cases(thorough):
     cases = []
-    shapes = [0, 1, 2, 3]
+    shapes = [0, 1, 2, 3, 4, 5, 6]
     for nbody in range(22, 32):
         for shape in shapes:
             for nvars in (0, 2):
